@@ -1215,6 +1215,9 @@ impl Vault {
             return Ok(());
         }
 
+        // An expired grant must not authorize anything: sweep before deciding
+        self.cleanup_expired_grants();
+
         let secret_node = self.secret_node_key(key);
 
         if AccessController::check_path_with_permission_verified(
@@ -1242,6 +1245,7 @@ impl Vault {
             return true;
         }
 
+        self.cleanup_expired_grants();
         let secret_node = self.secret_node_key(key);
         AccessController::get_permission_level_verified(
             &self.graph,
@@ -1273,6 +1277,7 @@ impl Vault {
             return Some(Permission::Admin);
         }
 
+        self.cleanup_expired_grants();
         let secret_node = self.secret_node_key(key);
         AccessController::get_permission_level_verified(
             &self.graph,
